@@ -128,7 +128,7 @@ def gen_cases(rng, tier):
             classes.append((cn, fs))
             inherited += [f[0] for f in fs if f[0] not in inherited]
         cases.append(_case("random-chain", classes, {"future": future, "spell": rng.randrange(10**6), "alt": rng.random() < 0.25,
-                                                     "inst_first": rng.random() < 0.5}))
+                                                     "inst_first": rng.random() < 0.5, "shadow": rng.random() < 0.3}))
     if tier != "quick":
         for t in _exhaustive():
             fs = [("f0", False, t)]
@@ -192,6 +192,28 @@ def impl(t, case):
         log.addHandler(cap)
         log.setLevel(logging.DEBUG)
         log.propagate = False
+        if opts.get("shadow"):
+            # seeded change C11-5: every class of the chain is first defined under the SAME qualified name with every field
+            # of the opposite kind (a node class where the real annotation mentions none, int otherwise), classified and
+            # instantiated; the verdict for the class defined afterwards must not depend on that earlier class
+            early = [P.s_(c) + mod.sfx for c in t.args[0]]
+            for i, (cn, fs) in enumerate(classes):
+                ls = []
+                for fname, _q, ty in fs:
+                    if early and not P.mentions_node(ty):
+                        ls.append(f"    {fname}: {early[0]} | None = None")
+                    else:
+                        ls.append(f"    {fname}: int = 0")
+                base = (classes[i - 1][0] + mod.sfx) if i else "ASTNode"
+                try:
+                    mod.run(f"@dataclass(frozen=True)\nclass {cn}{mod.sfx}({base}):\n" + "\n".join(ls or ["    pass"]) + "\n")
+                    S = getattr(mod.m, cn + mod.sfx)
+                    S.get_child_fields(), S.get_property_fields()
+                    S()
+                except Exception:  # noqa
+                    pass
+            for cn, _ in classes:      # a forward reference to a later class of the chain must not resolve to its shadow
+                mod.m.__dict__.pop(cn + mod.sfx, None)
         defined = []
         for (cn, _), src in zip(classes, chunks):
             cap.msgs.clear()
